@@ -7,11 +7,16 @@
    C17_exp_bound_factor, ...).  Proved here for ALL real h, g, q0, ld0, every number of noise units and every admissible
    variational parameter: logp_lb <= logp pointwise (exp, cosh-1, rectified-linear), = for the step link, and equality
    when h = +-w (zero input weights: h is constant and the code's w is |h|).
-   NOT proved: monotonicity of the multivariate Gaussian integral that lifts the pointwise inequality to the
-   expectations (no multivariate integration library), and the quadratic rate of the gap. *)
+   Quadratic rate of the log-det part of the gap: 0 <= ldUB - ln(1+link) <= (h^2 - w^2)^2 / 192 (exp) resp. / 12 (cosh-1)
+   for all h, with the SHARP constant; at the code's choice w^2 = E[h^2] the Gaussian expectation of (h^2 - w^2)^2 is
+   2 v^2 + 4 m^2 v for h ~ N(m, v), i.e. s^2 (2 s^2 v1^2 + 4 m^2 v1) when the input weights are scaled by s: the gap
+   vanishes quadratically.  One-dimensional version with genuine (Riemann) integrals on [-a, a]: C17_coshm1_gap_integral.
+   NOT proved: monotonicity of the multivariate Gaussian integral that lifts the pointwise inequalities to the
+   expectations in D dimensions (no multivariate integration library), and the rate of the quadratic-term part of the gap
+   (it involves the fixed point of the variational parameter). *)
 From Coq Require Import Reals Lra Lia List.
 From Coquelicot Require Import Coquelicot.
-From GT Require Import HetBoundR.
+From GT Require Import HetBoundR HetGapR.
 Open Scope R_scope.
 
 (* the two scalar inequalities everything reduces to *)
@@ -52,6 +57,30 @@ Theorem C17_coshm1_bound_tight q0 ld0 c us :
   logp_lb sLB_cosh ldUB_cosh q0 ld0 c us = logp link_coshm1 q0 ld0 c us.
 Proof. exact (cosh_bound_tight q0 ld0 c us). Qed.
 
+(* ---- quadratic rate of the log-det part of the gap ---- *)
+Theorem C17_lncosh_gap_quadratic h w : 0 < w ->
+  ln (cosh w) + tanh w / (2 * w) * (h * h - w * w) - ln (cosh h) <= (h * h - w * w) ^ 2 / 12.
+Proof. exact (lncosh_gap_quadratic h w). Qed.
+Theorem C17_exp_logdet_gap h w : 0 < w -> 0 <= ldUB_exp w h - ln (1 + link_exp h) <= (h * h - w * w) ^ 2 / 192.
+Proof. exact (exp_ldUB_gap_bounds h w). Qed.
+Theorem C17_coshm1_logdet_gap h w : 0 < w -> 0 <= ldUB_cosh w h - ln (1 + link_coshm1 h) <= (h * h - w * w) ^ 2 / 12.
+Proof. exact (cosh_ldUB_gap_bounds h w). Qed.
+(* E[(h^2 - E h^2)^2] for h ~ N(m, v), from E h^2 = m^2 + v, E h^4 = m^4 + 6 m^2 v + 3 v^2; and with v = s^2 v1 *)
+Theorem C17_gap_moment_and_rate m v v1 s :
+  (m^4 + 6 * m^2 * v + 3 * v^2) - 2 * (m^2 + v) * (m^2 + v) + (m^2 + v)^2 = 2 * v^2 + 4 * m^2 * v
+  /\ 2 * (s^2 * v1)^2 + 4 * m^2 * (s^2 * v1) = s^2 * (2 * s^2 * v1^2 + 4 * m^2 * v1).
+Proof. split; [exact (gap_moment m v) | exact (gap_rate m v1 s)]. Qed.
+(* with genuine integrals in one dimension (standard normal weight phiG on [-a, a], h = m + s z) *)
+Theorem C17_coshm1_gap_integral w m s a : 0 < w -> 0 <= a ->
+  0 <= RInt (fun z => (ldUB_cosh w (m + s * z) - ln (cosh (m + s * z))) * phiG z) (- a) a
+  /\ RInt (fun z => (ldUB_cosh w (m + s * z) - ln (cosh (m + s * z))) * phiG z) (- a) a
+     <= RInt (fun z => ((m + s * z) ^ 2 - w ^ 2) ^ 2 / 12 * phiG z) (- a) a.
+Proof. intros Hw Ha; split; [exact (cosh_ldUB_gap_RInt_nonneg w m s a Hw Ha) | exact (cosh_ldUB_gap_RInt w m s a Hw Ha)]. Qed.
+Theorem C17_exp_gap_integral w m s a : 0 < w -> 0 <= a ->
+  RInt (fun z => (ldUB_exp w (m + s * z) - ln (1 + link_exp (m + s * z))) * phiG z) (- a) a
+  <= RInt (fun z => ((m + s * z) ^ 2 - w ^ 2) ^ 2 / 192 * phiG z) (- a) a.
+Proof. exact (exp_ldUB_gap_RInt w m s a). Qed.
+
 (* non-vacuity: the hypotheses are met, e.g. two noise units with variational parameters 1 and 1/2 *)
 Example C17_bound_hypotheses_satisfiable :
   List.Forall (fun u => 0 < uws u /\ 0 < uwd u) (Unit 1 2 1 (/ 2) :: Unit (-1) 0 (/ 2) 1 :: nil).
@@ -68,3 +97,9 @@ Print Assumptions C17_coshm1_bound_pointwise.
 Print Assumptions C17_relu_bound_pointwise.
 Print Assumptions C17_exp_bound_tight.
 Print Assumptions C17_coshm1_bound_tight.
+Print Assumptions C17_lncosh_gap_quadratic.
+Print Assumptions C17_exp_logdet_gap.
+Print Assumptions C17_coshm1_logdet_gap.
+Print Assumptions C17_gap_moment_and_rate.
+Print Assumptions C17_coshm1_gap_integral.
+Print Assumptions C17_exp_gap_integral.
